@@ -79,10 +79,17 @@ func parseFloat32(s []byte) float32 {
 //
 // For example, roundUpTo(0.0001, 100) -> 0.01.
 func roundUpTo(value float32, granularity float64) float32 {
+	scaled := float64(value) * granularity
+	// The closest float32 to a multiple of 1/granularity, e.g. 1.23, is
+	// in general not exactly that multiple once widened to float64, but
+	// must not be rounded up to the next one.
+	if float32(math.Round(scaled)/granularity) == value {
+		return value
+	}
 	if value > 0 {
-		return float32(math.Ceil(float64(value)*granularity) / granularity)
+		return float32(math.Ceil(scaled) / granularity)
 	} else if value < 0 {
-		return float32(math.Floor(float64(value)*granularity) / granularity)
+		return float32(math.Floor(scaled) / granularity)
 	}
 	return 0
 }
